@@ -59,7 +59,18 @@ fn args() -> BTreeMap<String, String> {
 
 // --------------------------------------------------------------- verdict ----
 
+/// Set while the plan of a file is (re-)emitted on which the library killed or stalled this process before (`--nolib i:kind`):
+/// the library is not called again, every verdict is the recorded kind ("abort" / "hang" = unknown to the oracle).
+static NOLIB: std::sync::Mutex<Option<String>> = std::sync::Mutex::new(None);
+
+fn nolib() -> Option<String> {
+    NOLIB.lock().unwrap().clone()
+}
+
 fn verdict<E: std::fmt::Display>(f: impl FnOnce() -> Result<(), E>) -> Value {
+    if let Some(kind) = nolib() {
+        return json!({"v": kind, "msg": "the helper process did not survive this library call in an earlier attempt"});
+    }
     match trap(f) {
         Ok(Ok(())) => json!({"v": "ok"}),
         Ok(Err(e)) => {
@@ -72,8 +83,46 @@ fn verdict<E: std::fmt::Display>(f: impl FnOnce() -> Result<(), E>) -> Value {
 }
 
 type R = Result<(), String>;
+/// chains that write an output: the bytes the library writes (what a complete output file must contain)
+type RB = Result<Vec<u8>, String>;
+
+/// (verdict, Some("len:digest") of the library-written output)
+fn verdict_out(f: impl FnOnce() -> RB) -> (Value, String) {
+    if let Some(kind) = nolib() {
+        return (json!({"v": kind, "msg": "the helper process did not survive this library call in an earlier attempt"}), String::new());
+    }
+    match trap(f) {
+        Ok(Ok(b)) => (json!({"v": "ok"}), format!("{}:{:016x}", b.len(), fnv64(&b))),
+        Ok(Err(mut e)) => {
+            e.truncate(200);
+            (json!({"v": "err", "msg": e}), String::new())
+        }
+        Err(p) => (json!({"v": "panic", "msg": p.sig()}), String::new()),
+    }
+}
+fn take(tmp: &Path, r: Result<(), String>) -> RB {
+    let b = std::fs::read(tmp);
+    let _ = std::fs::remove_file(tmp);
+    r?;
+    b.map_err(es)
+}
 fn es<E: std::fmt::Display>(e: E) -> String {
     e.to_string()
+}
+
+struct LibV {
+    v: Value,
+    expect: String,
+}
+impl From<Value> for LibV {
+    fn from(v: Value) -> Self {
+        LibV { v, expect: String::new() }
+    }
+}
+impl From<(Value, String)> for LibV {
+    fn from(t: (Value, String)) -> Self {
+        LibV { v: t.0, expect: t.1 }
+    }
 }
 
 struct RunSpec {
@@ -84,6 +133,8 @@ struct RunSpec {
     lib: Value,
     /// promised output file: (kind, path template, verify argument)
     out: Option<(&'static str, String, String)>,
+    /// "len:fnv64" of what the wrapped library chain writes (converters with a library writer), or ""
+    expect: String,
     /// promised stdout: "text" (non-empty), "json", "csv", "none"
     stdout: &'static str,
 }
@@ -102,15 +153,15 @@ fn lib_blp_to_png(p: &Path) -> R {
     let img = wow_blp::parser::load_blp(p).map_err(es)?;
     wow_blp::convert::blp_to_image(&img, 0).map(|_| ()).map_err(es)
 }
-fn lib_blp_to_blp2_dxt5(p: &Path) -> R {
+fn lib_blp_to_blp2_dxt5(p: &Path) -> RB {
     use wow_blp::convert::{Blp2Format, BlpTarget, DxtAlgorithm, image_to_blp};
     let img = wow_blp::parser::load_blp(p).map_err(es)?;
     let dynimg = wow_blp::convert::blp_to_image(&img, 0).map_err(es)?;
     let target = BlpTarget::Blp2(Blp2Format::Dxt5 { has_alpha: true, compress_algorithm: DxtAlgorithm::RangeFit });
     let blp = image_to_blp(dynimg, true, target, image::imageops::FilterType::Nearest).map_err(es)?;
-    wow_blp::encode::encode_blp(&blp).map(|_| ()).map_err(es)
+    wow_blp::encode::encode_blp(&blp).map_err(es)
 }
-fn lib_png_to_blp(p: &Path) -> R {
+fn lib_png_to_blp(p: &Path) -> RB {
     use wow_blp::convert::{BlpOldFormat, BlpTarget, image_to_blp};
     let img = image::ImageReader::open(p).map_err(es)?.decode().map_err(es)?;
     let has_alpha = matches!(
@@ -119,7 +170,7 @@ fn lib_png_to_blp(p: &Path) -> R {
     );
     let target = BlpTarget::Blp1(BlpOldFormat::Jpeg { has_alpha });
     let blp = image_to_blp(img, true, target, image::imageops::FilterType::Lanczos3).map_err(es)?;
-    wow_blp::encode::encode_blp(&blp).map(|_| ()).map_err(es)
+    wow_blp::encode::encode_blp(&blp).map_err(es)
 }
 
 /// The three table shapes of the C05 DBC seeds (`Seed::aux`), as the YAML the CLI is given and as the Schema
@@ -180,6 +231,21 @@ fn lib_dbc_schema(p: &Path, which: usize, sorted: bool) -> R {
     }
     Ok(())
 }
+/// Number of records the schema-carrying parse yields (what `dbc export` has to write), if it succeeds.
+fn dbc_record_count(p: &Path, which: usize) -> String {
+    if nolib().is_some() {
+        return String::new();
+    }
+    let n = trap(|| -> Option<usize> {
+        let mut r = BufReader::new(File::open(p).ok()?);
+        let parser = wow_cdbc::DbcParser::parse(&mut r).ok()?.with_schema(dbc_schema(which)).ok()?;
+        Some(parser.parse_records().ok()?.len())
+    });
+    match n {
+        Ok(Some(n)) => format!("records={n}"),
+        _ => String::new(),
+    }
+}
 fn lib_dbc_discover(p: &Path) -> R {
     let mut r = BufReader::new(File::open(p).map_err(es)?);
     let parser = wow_cdbc::DbcParser::parse(&mut r).map_err(es)?;
@@ -202,13 +268,12 @@ fn lib_m2_validate(p: &Path) -> R {
     let f = wow_m2::M2Model::load(p).map_err(es)?;
     f.model().validate().map_err(es)
 }
-fn lib_m2_convert(p: &Path, ver: &str, tmp: &Path) -> R {
+fn lib_m2_convert(p: &Path, ver: &str, tmp: &Path) -> RB {
     let f = wow_m2::M2Model::load(p).map_err(es)?;
     let v = wow_m2::M2Version::from_expansion_name(ver).map_err(es)?;
     let c = wow_m2::M2Converter::new().convert(f.model(), v).map_err(es)?;
     let r = c.save(tmp).map_err(es);
-    let _ = std::fs::remove_file(tmp);
-    r
+    take(tmp, r)
 }
 fn lib_skin_load(p: &Path) -> R {
     wow_m2::SkinFile::load(p).map(|_| ()).map_err(es)
@@ -216,31 +281,29 @@ fn lib_skin_load(p: &Path) -> R {
 fn lib_skin_load_old(p: &Path) -> R {
     wow_m2::skin::SkinG::<wow_m2::skin::OldSkinHeader>::load(p).map(|_| ()).map_err(es)
 }
-fn lib_skin_convert(p: &Path, ver: &str, tmp: &Path) -> R {
+fn lib_skin_convert(p: &Path, ver: &str, tmp: &Path) -> RB {
     let s = wow_m2::SkinFile::load(p).map_err(es)?;
     let v = wow_m2::M2Version::from_expansion_name(ver).map_err(es)?;
     let c = s.convert(v).map_err(es)?;
     let r = c.save(tmp).map_err(es);
-    let _ = std::fs::remove_file(tmp);
-    r
+    take(tmp, r)
 }
 fn lib_anim_load(p: &Path) -> R {
     wow_m2::AnimFile::load(p).map(|_| ()).map_err(es)
 }
-fn lib_anim_convert(p: &Path, ver: &str, tmp: &Path) -> R {
+fn lib_anim_convert(p: &Path, ver: &str, tmp: &Path) -> RB {
     let a = wow_m2::AnimFile::load(p).map_err(es)?;
     let v = wow_m2::M2Version::from_expansion_name(ver).map_err(es)?;
     let c = a.convert(v);
     let r = c.save(tmp).map_err(es);
-    let _ = std::fs::remove_file(tmp);
-    r
+    take(tmp, r)
 }
 
 fn lib_wmo_parse(p: &Path) -> R {
     let mut r = BufReader::new(File::open(p).map_err(es)?);
     wow_wmo::parse_wmo_with_metadata(&mut r).map(|_| ()).map_err(es)
 }
-fn lib_wmo_convert(p: &Path, ver: &str) -> R {
+fn lib_wmo_convert(p: &Path, ver: &str) -> RB {
     let target = wow_wmo::WmoVersion::from_expansion_name(ver).ok_or("invalid version")?;
     let mut r = BufReader::new(File::open(p).map_err(es)?);
     let disc = wow_wmo::discover_wmo_chunks(&mut r).map_err(es)?;
@@ -251,14 +314,15 @@ fn lib_wmo_convert(p: &Path, ver: &str) -> R {
     let mut root = wow_wmo::WmoParser::new().parse_root(&mut r).map_err(es)?;
     wow_wmo::WmoConverter::new().convert_root(&mut root, target).map_err(es)?;
     let mut out = Cursor::new(Vec::new());
-    wow_wmo::WmoWriter::new().write_root(&mut out, &root, target).map_err(es)
+    wow_wmo::WmoWriter::new().write_root(&mut out, &root, target).map_err(es)?;
+    Ok(out.into_inner())
 }
 
 fn lib_adt_parse(p: &Path) -> R {
     let mut r = BufReader::new(File::open(p).map_err(es)?);
     wow_adt::parse_adt_with_metadata(&mut r).map(|_| ()).map_err(es)
 }
-fn lib_adt_convert(p: &Path, ver: &str, tmp: &Path) -> R {
+fn lib_adt_convert(p: &Path, ver: &str, tmp: &Path) -> RB {
     let target = wow_adt::AdtVersion::from_expansion_name(ver).ok_or("invalid version")?;
     let mut r = BufReader::new(File::open(p).map_err(es)?);
     let (adt, _meta) = wow_adt::parse_adt_with_metadata(&mut r).map_err(es)?;
@@ -268,8 +332,7 @@ fn lib_adt_convert(p: &Path, ver: &str, tmp: &Path) -> R {
     };
     let built = wow_adt::BuiltAdt::from_root_adt(*root, Some(target));
     let r = built.write_to_file(tmp).map_err(es);
-    let _ = std::fs::remove_file(tmp);
-    r
+    take(tmp, r)
 }
 
 fn lib_wdt_read(p: &Path, ver: &str) -> R {
@@ -277,20 +340,24 @@ fn lib_wdt_read(p: &Path, ver: &str) -> R {
     let f = File::open(p).map_err(es)?;
     wow_wdt::WdtReader::new(BufReader::new(f), v).read().map(|_| ()).map_err(es)
 }
-fn lib_wdt_convert(p: &Path, from: &str, to: &str) -> R {
+fn lib_wdt_convert(p: &Path, from: &str, to: &str) -> RB {
     let fv = wow_wdt::version::WowVersion::from_expansion_name(from).map_err(es)?;
     let tv = wow_wdt::version::WowVersion::from_expansion_name(to).map_err(es)?;
     let f = File::open(p).map_err(es)?;
     let mut wdt = wow_wdt::WdtReader::new(BufReader::new(f), fv).read().map_err(es)?;
     let changes = wow_wdt::conversion::get_conversion_summary(fv, tv, wdt.is_wmo_only());
     if changes.is_empty() || (changes.len() == 1 && changes[0].contains("No conversion needed")) {
-        return Ok(()); // the sub-command stops here ("No conversion needed")
+        return Ok(Vec::new()); // the sub-command stops here ("No conversion needed")
     }
     wow_wdt::conversion::convert_wdt(&mut wdt, fv, tv).map_err(es)?;
     let mut out = Vec::new();
-    wow_wdt::WdtWriter::new(&mut out).write(&wdt).map_err(es)
+    wow_wdt::WdtWriter::new(&mut out).write(&wdt).map_err(es)?;
+    Ok(out)
 }
 fn wdt_conversion_is_noop(p: &Path, from: &str, to: &str) -> Option<bool> {
+    if nolib().is_some() {
+        return None;
+    }
     let fv = wow_wdt::version::WowVersion::from_expansion_name(from).ok()?;
     let tv = wow_wdt::version::WowVersion::from_expansion_name(to).ok()?;
     let f = File::open(p).ok()?;
@@ -325,13 +392,14 @@ fn lib_wdl_validate(p: &Path, ver: Option<&str>) -> R {
     let f = wdl_parser(ver).parse(&mut r).map_err(es)?;
     wow_wdl::validation::validate_wdl_file(&f).map_err(es)
 }
-fn lib_wdl_convert(p: &Path, from: Option<&str>, to: &str) -> R {
+fn lib_wdl_convert(p: &Path, from: Option<&str>, to: &str) -> RB {
     let mut r = BufReader::new(File::open(p).map_err(es)?);
     let f = wdl_parser(from).parse(&mut r).map_err(es)?;
     let target = wdl_version(to);
     let c = wow_wdl::conversion::convert_wdl_file(&f, target).map_err(es)?;
     let mut out = Cursor::new(Vec::new());
-    wow_wdl::parser::WdlParser::with_version(target).write(&mut out, &c).map_err(es)
+    wow_wdl::parser::WdlParser::with_version(target).write(&mut out, &c).map_err(es)?;
+    Ok(out.into_inner())
 }
 
 // ------------------------------------------------------------ run plans ----
@@ -367,123 +435,129 @@ fn wdt_label_version(label: &str) -> &'static str {
 
 fn plan(fmt: &str, seed: &Seed, class: &str, p: &Path, tmp: &Path, schema_path: &str) -> Vec<RunSpec> {
     let mut v: Vec<RunSpec> = Vec::new();
-    let mut add = |family: &'static str, sub: &'static str, opt: &'static str, args: Vec<String>, lib: Value, out: Option<(&'static str, String, String)>, stdout: &'static str| {
-        v.push(RunSpec { family, sub, opt, args, lib, out, stdout });
-    };
+    fn push<L: Into<LibV>>(v: &mut Vec<RunSpec>, family: &'static str, sub: &'static str, opt: &'static str, args: Vec<String>, lib: L, out: Option<(&'static str, String, String)>, stdout: &'static str) {
+        let l: LibV = lib.into();
+        v.push(RunSpec { family, sub, opt, args, lib: l.v, out, stdout, expect: l.expect });
+    }
+    macro_rules! add {
+        ($($a:expr),* $(,)?) => { push(&mut v, $($a),*) };
+    }
     let valid = class == "valid";
     match fmt {
         "blp" => {
             let load = verdict(|| lib_blp_load(p));
-            add("blp", "info", "default", sv(&["blp", "info", "{in}"]), load.clone(), None, "text");
-            add("blp", "info", "all", sv(&["blp", "info", "{in}", "--all", "--raw", "--best-mipmap-for", "4"]), load.clone(), None, "text");
-            add("blp", "validate", "default", sv(&["blp", "validate", "{in}"]), load.clone(), None, "text");
-            add("blp", "validate", "strict", sv(&["blp", "validate", "{in}", "--strict"]), load.clone(), None, "text");
-            add("blp", "convert", "to-png", sv(&["blp", "convert", "{in}", "{out}.png"]), verdict(|| lib_blp_to_png(p)), Some(("png", "{out}.png".into(), String::new())), "text");
-            add(
+            add!("blp", "info", "default", sv(&["blp", "info", "{in}"]), load.clone(), None, "text");
+            add!("blp", "info", "all", sv(&["blp", "info", "{in}", "--all", "--raw", "--best-mipmap-for", "4"]), load.clone(), None, "text");
+            add!("blp", "validate", "default", sv(&["blp", "validate", "{in}"]), load.clone(), None, "text");
+            add!("blp", "validate", "strict", sv(&["blp", "validate", "{in}", "--strict"]), load.clone(), None, "text");
+            add!("blp", "convert", "to-png", sv(&["blp", "convert", "{in}", "{out}.png"]), verdict(|| lib_blp_to_png(p)), Some(("png", "{out}.png".into(), String::new())), "text");
+            add!(
                 "blp",
                 "convert",
                 "to-blp2-dxt5",
                 sv(&["blp", "convert", "{in}", "{out}.blp", "--blp-version", "blp2", "--blp-format", "dxt5", "--alpha-bits", "8", "--dxt-compression", "fastest", "--mipmap-filter", "nearest"]),
-                verdict(|| lib_blp_to_blp2_dxt5(p)),
+                verdict_out(|| lib_blp_to_blp2_dxt5(p)),
                 Some(("blp", "{out}.blp".into(), String::new())),
                 "text",
             );
-            add("m2", "blp-info", "default", sv(&["m2", "blp-info", "{in}"]), load, None, "text");
+            add!("m2", "blp-info", "default", sv(&["m2", "blp-info", "{in}"]), load, None, "text");
         }
         "png" => {
-            add("blp", "convert", "png-to-blp1-jpeg", sv(&["blp", "convert", "{in}", "{out}.blp"]), verdict(|| lib_png_to_blp(p)), Some(("blp", "{out}.blp".into(), String::new())), "text");
+            add!("blp", "convert", "png-to-blp1-jpeg", sv(&["blp", "convert", "{in}", "{out}.blp"]), verdict_out(|| lib_png_to_blp(p)), Some(("blp", "{out}.blp".into(), String::new())), "text");
         }
         "dbc" => {
             let which = seed.aux;
             let raw = verdict(|| lib_dbc_raw(p));
             let with = verdict(|| lib_dbc_schema(p, which, false));
-            add("dbc", "info", "default", sv(&["dbc", "info", "{in}"]), raw.clone(), None, "text");
-            add("dbc", "list", "no-schema", sv(&["dbc", "list", "{in}"]), raw.clone(), None, "text");
-            add("dbc", "list", "schema", sv(&["dbc", "list", "{in}", "--schema", schema_path, "--limit", "3"]), with.clone(), None, "text");
-            add("dbc", "export", "json-file", sv(&["dbc", "export", "{in}", "--schema", schema_path, "--format", "json", "--output", "{out}.json"]), with.clone(), Some(("json", "{out}.json".into(), String::new())), "text");
-            add("dbc", "export", "csv-file", sv(&["dbc", "export", "{in}", "--schema", schema_path, "--format", "csv", "--output", "{out}.csv"]), with.clone(), Some(("csv", "{out}.csv".into(), String::new())), "text");
-            add("dbc", "export", "json-stdout", sv(&["dbc", "export", "{in}", "--schema", schema_path]), with.clone(), None, "json");
-            add("dbc", "analyze", "no-schema", sv(&["dbc", "analyze", "{in}"]), raw.clone(), None, "text");
-            add("dbc", "analyze", "schema-sorted", sv(&["dbc", "analyze", "{in}", "--schema", schema_path, "--cache-strings", "--sorted-keys"]), verdict(|| lib_dbc_schema(p, which, true)), None, "text");
-            add("dbc", "validate", "schema", sv(&["dbc", "validate", "{in}", "--schema", schema_path]), with, None, "text");
+            let nrec = dbc_record_count(p, which);
+            add!("dbc", "info", "default", sv(&["dbc", "info", "{in}"]), raw.clone(), None, "text");
+            add!("dbc", "list", "no-schema", sv(&["dbc", "list", "{in}"]), raw.clone(), None, "text");
+            add!("dbc", "list", "schema", sv(&["dbc", "list", "{in}", "--schema", schema_path, "--limit", "3"]), with.clone(), None, "text");
+            add!("dbc", "export", "json-file", sv(&["dbc", "export", "{in}", "--schema", schema_path, "--format", "json", "--output", "{out}.json"]), with.clone(), Some(("json", "{out}.json".into(), nrec.clone())), "text");
+            add!("dbc", "export", "csv-file", sv(&["dbc", "export", "{in}", "--schema", schema_path, "--format", "csv", "--output", "{out}.csv"]), with.clone(), Some(("csv", "{out}.csv".into(), nrec.clone())), "text");
+            add!("dbc", "export", "json-stdout", sv(&["dbc", "export", "{in}", "--schema", schema_path]), with.clone(), None, "json");
+            add!("dbc", "analyze", "no-schema", sv(&["dbc", "analyze", "{in}"]), raw.clone(), None, "text");
+            add!("dbc", "analyze", "schema-sorted", sv(&["dbc", "analyze", "{in}", "--schema", schema_path, "--cache-strings", "--sorted-keys"]), verdict(|| lib_dbc_schema(p, which, true)), None, "text");
+            add!("dbc", "validate", "schema", sv(&["dbc", "validate", "{in}", "--schema", schema_path]), with, None, "text");
             let disc = verdict(|| lib_dbc_discover(p));
-            add("dbc", "discover", "text", sv(&["dbc", "discover", "{in}"]), disc.clone(), None, "text");
-            add("dbc", "discover", "yaml-file", sv(&["dbc", "discover", "{in}", "--yaml", "--output", "{out}.yaml"]), disc, Some(("yaml-schema", "{out}.yaml".into(), String::new())), "text");
+            add!("dbc", "discover", "text", sv(&["dbc", "discover", "{in}"]), disc.clone(), None, "text");
+            add!("dbc", "discover", "text-file", sv(&["dbc", "discover", "{in}", "--output", "{out}.txt"]), disc.clone(), Some(("text-schema", "{out}.txt".into(), String::new())), "text");
+            add!("dbc", "discover", "yaml-file", sv(&["dbc", "discover", "{in}", "--yaml", "--output", "{out}.yaml"]), disc, Some(("yaml-schema", "{out}.yaml".into(), String::new())), "text");
         }
         "m2" => {
             let load = verdict(|| lib_m2_load(p));
             let val = verdict(|| lib_m2_validate(p));
-            add("m2", "info", "default", sv(&["m2", "info", "{in}"]), load.clone(), None, "text");
-            add("m2", "info", "detailed", sv(&["m2", "info", "{in}", "--detailed"]), load.clone(), None, "text");
-            add("m2", "validate", "default", sv(&["m2", "validate", "{in}"]), val.clone(), None, "text");
-            add("m2", "validate", "warnings", sv(&["m2", "validate", "{in}", "--warnings"]), val, None, "text");
-            add("m2", "tree", "default", sv(&["m2", "tree", "{in}"]), load.clone(), None, "text");
-            add("m2", "tree", "size-refs", sv(&["m2", "tree", "{in}", "--size", "--refs", "--depth", "3"]), load, None, "text");
+            add!("m2", "info", "default", sv(&["m2", "info", "{in}"]), load.clone(), None, "text");
+            add!("m2", "info", "detailed", sv(&["m2", "info", "{in}", "--detailed"]), load.clone(), None, "text");
+            add!("m2", "validate", "default", sv(&["m2", "validate", "{in}"]), val.clone(), None, "text");
+            add!("m2", "validate", "warnings", sv(&["m2", "validate", "{in}", "--warnings"]), val, None, "text");
+            add!("m2", "tree", "default", sv(&["m2", "tree", "{in}"]), load.clone(), None, "text");
+            add!("m2", "tree", "size-refs", sv(&["m2", "tree", "{in}", "--size", "--refs", "--depth", "3"]), load, None, "text");
             for (opt, ver) in [("to-wotlk", "wotlk"), ("to-classic", "classic")] {
-                add("m2", "convert", opt, sv(&["m2", "convert", "{in}", "{out}.m2", "--version", ver]), verdict(|| lib_m2_convert(p, ver, tmp)), Some(("m2", "{out}.m2".into(), String::new())), "text");
+                add!("m2", "convert", opt, sv(&["m2", "convert", "{in}", "{out}.m2", "--version", ver]), verdict_out(|| lib_m2_convert(p, ver, tmp)), Some(("m2", "{out}.m2".into(), String::new())), "text");
             }
         }
         "skin" => {
             let load = verdict(|| lib_skin_load(p));
-            add("m2", "skin-info", "default", sv(&["m2", "skin-info", "{in}"]), load.clone(), None, "text");
-            add("m2", "skin-info", "detailed", sv(&["m2", "skin-info", "{in}", "--detailed"]), load, None, "text");
-            add("m2", "skin-info", "old-format", sv(&["m2", "skin-info", "{in}", "--old-format"]), verdict(|| lib_skin_load_old(p)), None, "text");
+            add!("m2", "skin-info", "default", sv(&["m2", "skin-info", "{in}"]), load.clone(), None, "text");
+            add!("m2", "skin-info", "detailed", sv(&["m2", "skin-info", "{in}", "--detailed"]), load, None, "text");
+            add!("m2", "skin-info", "old-format", sv(&["m2", "skin-info", "{in}", "--old-format"]), verdict(|| lib_skin_load_old(p)), None, "text");
             for (opt, ver) in [("to-cata", "cata"), ("to-wotlk", "wotlk")] {
-                add("m2", "skin-convert", opt, sv(&["m2", "skin-convert", "{in}", "{out}.skin", "--version", ver]), verdict(|| lib_skin_convert(p, ver, tmp)), Some(("skin", "{out}.skin".into(), String::new())), "text");
+                add!("m2", "skin-convert", opt, sv(&["m2", "skin-convert", "{in}", "{out}.skin", "--version", ver]), verdict_out(|| lib_skin_convert(p, ver, tmp)), Some(("skin", "{out}.skin".into(), String::new())), "text");
             }
         }
         "anim" => {
             let load = verdict(|| lib_anim_load(p));
-            add("m2", "anim-info", "default", sv(&["m2", "anim-info", "{in}"]), load.clone(), None, "text");
-            add("m2", "anim-info", "detailed", sv(&["m2", "anim-info", "{in}", "--detailed"]), load, None, "text");
+            add!("m2", "anim-info", "default", sv(&["m2", "anim-info", "{in}"]), load.clone(), None, "text");
+            add!("m2", "anim-info", "detailed", sv(&["m2", "anim-info", "{in}", "--detailed"]), load, None, "text");
             for (opt, ver) in [("to-legion", "legion"), ("to-wotlk", "wotlk")] {
-                add("m2", "anim-convert", opt, sv(&["m2", "anim-convert", "{in}", "{out}.anim", "--version", ver]), verdict(|| lib_anim_convert(p, ver, tmp)), Some(("anim", "{out}.anim".into(), String::new())), "text");
+                add!("m2", "anim-convert", opt, sv(&["m2", "anim-convert", "{in}", "{out}.anim", "--version", ver]), verdict_out(|| lib_anim_convert(p, ver, tmp)), Some(("anim", "{out}.anim".into(), String::new())), "text");
             }
         }
         "wmo-root" | "wmo-group" => {
             let parse = verdict(|| lib_wmo_parse(p));
-            add("wmo", "info", "default", sv(&["wmo", "info", "{in}"]), parse.clone(), None, "text");
-            add("wmo", "info", "detailed", sv(&["wmo", "info", "{in}", "--detailed"]), parse.clone(), None, "text");
-            add("wmo", "validate", "default", sv(&["wmo", "validate", "{in}"]), parse.clone(), None, "text");
-            add("wmo", "validate", "warnings-detailed", sv(&["wmo", "validate", "{in}", "--warnings", "--detailed"]), parse.clone(), None, "text");
-            add("wmo", "tree", "default", sv(&["wmo", "tree", "{in}"]), parse.clone(), None, "text");
-            add("wmo", "tree", "detailed-refs", sv(&["wmo", "tree", "{in}", "--detailed", "--show-refs", "--no-color"]), parse, None, "text");
+            add!("wmo", "info", "default", sv(&["wmo", "info", "{in}"]), parse.clone(), None, "text");
+            add!("wmo", "info", "detailed", sv(&["wmo", "info", "{in}", "--detailed"]), parse.clone(), None, "text");
+            add!("wmo", "validate", "default", sv(&["wmo", "validate", "{in}"]), parse.clone(), None, "text");
+            add!("wmo", "validate", "warnings-detailed", sv(&["wmo", "validate", "{in}", "--warnings", "--detailed"]), parse.clone(), None, "text");
+            add!("wmo", "tree", "default", sv(&["wmo", "tree", "{in}"]), parse.clone(), None, "text");
+            add!("wmo", "tree", "detailed-refs", sv(&["wmo", "tree", "{in}", "--detailed", "--show-refs", "--no-color"]), parse, None, "text");
             for (opt, ver) in [("to-cata", "cata"), ("to-classic", "classic")] {
-                add("wmo", "convert", opt, sv(&["wmo", "convert", "{in}", "{out}.wmo", "--version", ver]), verdict(|| lib_wmo_convert(p, ver)), Some(("wmo", "{out}.wmo".into(), String::new())), "text");
+                add!("wmo", "convert", opt, sv(&["wmo", "convert", "{in}", "{out}.wmo", "--version", ver]), verdict_out(|| lib_wmo_convert(p, ver)), Some(("wmo", "{out}.wmo".into(), String::new())), "text");
             }
             if valid {
                 // declared "not yet implemented": the truthful answer is a non-zero exit
                 let ni = json!({"v": "err", "msg": "sub-command is declared not implemented in commands/wmo.rs"});
-                add("wmo", "list", "default", sv(&["wmo", "list", "{in}"]), ni.clone(), None, "none");
-                add("wmo", "export", "default", sv(&["wmo", "export", "{in}", "--output", "{out}.d"]), ni.clone(), None, "none");
-                add("wmo", "extract-groups", "default", sv(&["wmo", "extract-groups", "{in}", "--output", "{out}.g"]), ni, None, "none");
+                add!("wmo", "list", "default", sv(&["wmo", "list", "{in}"]), ni.clone(), None, "none");
+                add!("wmo", "export", "default", sv(&["wmo", "export", "{in}", "--output", "{out}.d"]), ni.clone(), None, "none");
+                add!("wmo", "extract-groups", "default", sv(&["wmo", "extract-groups", "{in}", "--output", "{out}.g"]), ni, None, "none");
             }
         }
         "adt" => {
             let parse = verdict(|| lib_adt_parse(p));
-            add("adt", "info", "default", sv(&["adt", "info", "{in}"]), parse.clone(), None, "text");
-            add("adt", "info", "detailed", sv(&["adt", "info", "{in}", "--detailed"]), parse.clone(), None, "text");
-            add("adt", "validate", "default", sv(&["adt", "validate", "{in}"]), parse.clone(), None, "text");
-            add("adt", "validate", "strict-warnings", sv(&["adt", "validate", "{in}", "--level", "strict", "--warnings"]), parse.clone(), None, "text");
-            add("adt", "tree", "default", sv(&["adt", "tree", "{in}"]), parse.clone(), None, "text");
-            add("adt", "tree", "refs-compact", sv(&["adt", "tree", "{in}", "--show-refs", "--no-color", "--compact"]), parse, None, "text");
+            add!("adt", "info", "default", sv(&["adt", "info", "{in}"]), parse.clone(), None, "text");
+            add!("adt", "info", "detailed", sv(&["adt", "info", "{in}", "--detailed"]), parse.clone(), None, "text");
+            add!("adt", "validate", "default", sv(&["adt", "validate", "{in}"]), parse.clone(), None, "text");
+            add!("adt", "validate", "strict-warnings", sv(&["adt", "validate", "{in}", "--level", "strict", "--warnings"]), parse.clone(), None, "text");
+            add!("adt", "tree", "default", sv(&["adt", "tree", "{in}"]), parse.clone(), None, "text");
+            add!("adt", "tree", "refs-compact", sv(&["adt", "tree", "{in}", "--show-refs", "--no-color", "--compact"]), parse, None, "text");
             for (opt, ver) in [("to-wotlk", "wotlk"), ("to-cata", "cataclysm")] {
-                add("adt", "convert", opt, sv(&["adt", "convert", "{in}", "{out}.adt", "--to", ver]), verdict(|| lib_adt_convert(p, ver, tmp)), Some(("adt", "{out}.adt".into(), String::new())), "text");
+                add!("adt", "convert", opt, sv(&["adt", "convert", "{in}", "{out}.adt", "--to", ver]), verdict_out(|| lib_adt_convert(p, ver, tmp)), Some(("adt", "{out}.adt".into(), String::new())), "text");
             }
         }
         "wdt" => {
             let own = wdt_label_version(&seed.label);
             let dflt = verdict(|| lib_wdt_read(p, "WotLK"));
             let ownv = verdict(|| lib_wdt_read(p, own));
-            add("wdt", "info", "default", sv(&["wdt", "info", "{in}"]), dflt.clone(), None, "text");
-            add("wdt", "info", "detailed-own-version", sv(&["wdt", "info", "{in}", "--detailed", "--version", own]), ownv.clone(), None, "text");
-            add("wdt", "validate", "default", sv(&["wdt", "validate", "{in}"]), dflt.clone(), None, "text");
-            add("wdt", "validate", "warnings-own-version", sv(&["wdt", "validate", "{in}", "--warnings", "--version", own]), ownv.clone(), None, "text");
-            add("wdt", "tiles", "text", sv(&["wdt", "tiles", "{in}"]), dflt.clone(), None, "text");
-            add("wdt", "tiles", "json", sv(&["wdt", "tiles", "{in}", "--format", "json", "--version", own]), ownv.clone(), None, "json");
-            add("wdt", "tiles", "csv", sv(&["wdt", "tiles", "{in}", "--format", "csv", "--version", own]), ownv.clone(), None, "csv");
-            add("wdt", "tree", "default", sv(&["wdt", "tree", "{in}"]), dflt, None, "text");
-            add("wdt", "tree", "compact-own-version", sv(&["wdt", "tree", "{in}", "--compact", "--no-color", "--no-external-refs", "--version", own]), ownv.clone(), None, "text");
+            add!("wdt", "info", "default", sv(&["wdt", "info", "{in}"]), dflt.clone(), None, "text");
+            add!("wdt", "info", "detailed-own-version", sv(&["wdt", "info", "{in}", "--detailed", "--version", own]), ownv.clone(), None, "text");
+            add!("wdt", "validate", "default", sv(&["wdt", "validate", "{in}"]), dflt.clone(), None, "text");
+            add!("wdt", "validate", "warnings-own-version", sv(&["wdt", "validate", "{in}", "--warnings", "--version", own]), ownv.clone(), None, "text");
+            add!("wdt", "tiles", "text", sv(&["wdt", "tiles", "{in}"]), dflt.clone(), None, "text");
+            add!("wdt", "tiles", "json", sv(&["wdt", "tiles", "{in}", "--format", "json", "--version", own]), ownv.clone(), None, "json");
+            add!("wdt", "tiles", "csv", sv(&["wdt", "tiles", "{in}", "--format", "csv", "--version", own]), ownv.clone(), None, "csv");
+            add!("wdt", "tree", "default", sv(&["wdt", "tree", "{in}"]), dflt, None, "text");
+            add!("wdt", "tree", "compact-own-version", sv(&["wdt", "tree", "{in}", "--compact", "--no-color", "--no-external-refs", "--version", own]), ownv.clone(), None, "text");
             for (opt, to) in [("own-to-cata", "cata"), ("own-to-classic", "classic"), ("own-to-bfa", "bfa")] {
                 let noop = wdt_conversion_is_noop(p, own, to).unwrap_or(false);
                 let out = if noop { None } else { Some(("wdt", "{out}.wdt".to_string(), to.to_string())) };
@@ -496,19 +570,19 @@ fn plan(fmt: &str, seed: &Seed, class: &str, p: &Path, tmp: &Path, schema_path: 
                 } else {
                     opt
                 };
-                add("wdt", "convert", optn, sv(&["wdt", "convert", "{in}", "{out}.wdt", "--from-version", own, "--to-version", to]), verdict(|| lib_wdt_convert(p, own, to)), out, "text");
+                add!("wdt", "convert", optn, sv(&["wdt", "convert", "{in}", "{out}.wdt", "--from-version", own, "--to-version", to]), verdict_out(|| lib_wdt_convert(p, own, to)), out, "text");
             }
-            add("wdt", "convert", "preview", sv(&["wdt", "convert", "{in}", "{out}.wdt", "-f", own, "-t", "mop", "--preview"]), ownv, None, "text");
+            add!("wdt", "convert", "preview", sv(&["wdt", "convert", "{in}", "{out}.wdt", "-f", own, "-t", "mop", "--preview"]), ownv, None, "text");
         }
         "wdl" => {
             let auto = verdict(|| lib_wdl_parse(p, None));
-            add("wdl", "info", "default", sv(&["wdl", "info", "{in}"]), auto, None, "text");
-            add("wdl", "validate", "auto", sv(&["wdl", "validate", "{in}"]), verdict(|| lib_wdl_validate(p, None)), None, "text");
-            add("wdl", "validate", "as-wotlk", sv(&["wdl", "validate", "{in}", "--version", "wotlk"]), verdict(|| lib_wdl_validate(p, Some("wotlk"))), None, "text");
-            add("wdl", "tree", "default", sv(&["wdl", "tree", "{in}"]), verdict(|| lib_wdl_parse(p, Some("wotlk"))), None, "text");
-            add("wdl", "tree", "as-legion-compact", sv(&["wdl", "tree", "{in}", "--version", "legion", "--compact", "--no-color", "--no-external-refs"]), verdict(|| lib_wdl_parse(p, Some("legion"))), None, "text");
+            add!("wdl", "info", "default", sv(&["wdl", "info", "{in}"]), auto, None, "text");
+            add!("wdl", "validate", "auto", sv(&["wdl", "validate", "{in}"]), verdict(|| lib_wdl_validate(p, None)), None, "text");
+            add!("wdl", "validate", "as-wotlk", sv(&["wdl", "validate", "{in}", "--version", "wotlk"]), verdict(|| lib_wdl_validate(p, Some("wotlk"))), None, "text");
+            add!("wdl", "tree", "default", sv(&["wdl", "tree", "{in}"]), verdict(|| lib_wdl_parse(p, Some("wotlk"))), None, "text");
+            add!("wdl", "tree", "as-legion-compact", sv(&["wdl", "tree", "{in}", "--version", "legion", "--compact", "--no-color", "--no-external-refs"]), verdict(|| lib_wdl_parse(p, Some("legion"))), None, "text");
             for (opt, to) in [("to-legion", "legion"), ("to-vanilla", "vanilla"), ("to-wotlk", "wotlk")] {
-                add("wdl", "convert", opt, sv(&["wdl", "convert", "{in}", "{out}.wdl", "--to", to]), verdict(|| lib_wdl_convert(p, None, to)), Some(("wdl", "{out}.wdl".into(), to.to_string())), "text");
+                add!("wdl", "convert", opt, sv(&["wdl", "convert", "{in}", "{out}.wdl", "--to", to]), verdict_out(|| lib_wdl_convert(p, None, to)), Some(("wdl", "{out}.wdl".into(), to.to_string())), "text");
             }
         }
         _ => {}
@@ -612,6 +686,10 @@ fn generate(a: &BTreeMap<String, String>) {
     let thorough = a.get("tier").map(|s| s == "thorough").unwrap_or(false);
     let start: u64 = a.get("start").and_then(|s| s.parse().ok()).unwrap_or(0);
     let journal = a.get("journal").expect("--journal");
+    let skip: BTreeMap<u64, String> = a
+        .get("nolib")
+        .map(|s| s.split(',').filter_map(|x| x.split_once(':')).filter_map(|(i, k)| i.parse().ok().map(|i| (i, k.to_string()))).collect())
+        .unwrap_or_default();
     let mut j = std::fs::OpenOptions::new().create(true).append(true).open(journal).expect("journal");
     std::fs::create_dir_all(&out).expect("out dir");
     let tmpdir = out.join("libtmp");
@@ -646,6 +724,7 @@ fn generate(a: &BTreeMap<String, String>) {
         std::fs::write(&path, &bytes).expect("write input");
         writeln!(j, "{}", json!({"e": "B", "i": my, "file": path.to_string_lossy()})).ok();
         j.flush().ok();
+        *NOLIB.lock().unwrap() = skip.get(&my).cloned();
         let schema = out.join(format!("schema{}.yaml", seed.aux.min(2))).to_string_lossy().to_string();
         let tmp = tmpdir.join(format!("lib-{my}.bin"));
         let runs = plan(fmtname, seed, &class, &path, &tmp, &schema);
@@ -653,7 +732,7 @@ fn generate(a: &BTreeMap<String, String>) {
             .iter()
             .map(|r| {
                 json!({"family": r.family, "sub": r.sub, "opt": r.opt, "args": r.args, "lib": r.lib,
-                       "out": r.out.as_ref().map(|(k, p, arg)| json!({"kind": k, "path": p, "arg": arg})), "stdout": r.stdout})
+                       "out": r.out.as_ref().map(|(k, p, arg)| json!({"kind": k, "path": p, "arg": arg, "expect": r.expect})), "stdout": r.stdout})
             })
             .collect();
         let _ = fdef;
